@@ -10,6 +10,9 @@ out = {}
 allfuncs = []
 alldefs = {}
 calls = {}
+sigs = {}
+shapes = {}
+trees = []
 for dirpath, dirnames, filenames in os.walk(os.path.join(REPO, 'photutils')):
     dirnames[:] = sorted(d for d in dirnames if d not in ('tests', '__pycache__'))
     for fn in sorted(filenames):
@@ -21,6 +24,12 @@ for dirpath, dirnames, filenames in os.walk(os.path.join(REPO, 'photutils')):
         if mod.endswith('.__init__'):
             mod = mod[:-9]
         tree = ast.parse(open(path, encoding='utf-8').read())
+        trees.append((mod, tree))
+        for k, v in canon.signatures(tree).items():
+            sigs.setdefault(k, [])
+            for one in v:
+                if one not in sigs[k]:
+                    sigs[k].append(one)
         for q, node in canon._functions(tree, mod):
             allfuncs.append(q)
             callees = sorted({(c.func.attr if isinstance(c.func, ast.Attribute) else c.func.id) for c in ast.walk(node)
@@ -32,6 +41,21 @@ for dirpath, dirnames, filenames in os.walk(os.path.join(REPO, 'photutils')):
             multi = {k: v for k, v in alld.items() if len(v) > 1}
             if multi:
                 alldefs[q] = multi
+sigs = {k: v[0] for k, v in sigs.items() if len(v) == 1}
+for mod, tree in trees:
+    for q, node in canon._functions(tree, mod):
+        sh = canon.call_shapes(node, sigs)
+        if sh:
+            shapes[q] = sh
+params = {}
+for mod, tree in trees:
+    for q, node in canon._functions(tree, mod):
+        short = q.rsplit('.', 1)[-1]
+        if (short.startswith('_') and not short.startswith('__')) or '<locals>' in q:
+            params[q] = canon._param_names(node)
+out['__params__'] = params
+out['__signatures__'] = sigs
+out['__callshapes__'] = shapes
 out['__functions__'] = sorted(allfuncs)
 out['__alldefs__'] = alldefs
 out['__calls__'] = {k: v for k, v in calls.items() if v}
